@@ -15,6 +15,7 @@ import (
 )
 
 type caseT struct {
+	borrowed  bool // known classes are borrowed from another property: label only
 	extraSels bool // the last Lookup had sels beyond the required columns
 	d     *dbT
 	tq    *topQ
@@ -207,11 +208,21 @@ func (c *caseT) knownCrash(rec *ev.Rec, prop string, err *engineErr, strat strin
 		return false
 	}
 	if e, ok := kf.Known(prop, key); ok {
-		rec.Excluded(key)
-		rec.Known(e.What)
+		c.recordKnown(rec, key, e.What)
 		return true
 	}
 	return false
+}
+
+// recordKnown counts an excluded case. A check that borrows the known
+// classes of another property (C02 borrows C22's) only labels the skip.
+func (c *caseT) recordKnown(rec *ev.Rec, key, what string) {
+	if c.borrowed {
+		rec.Label("skipped_class_known_under_C22: " + key)
+		return
+	}
+	rec.Excluded(key)
+	rec.Known(what)
 }
 
 // emptyUniqueRow: the query reads a table with an "index unique" (not
@@ -316,8 +327,7 @@ func (c *caseT) knownCase(rec *ev.Rec, prop string) bool {
 			return false
 		}
 		if e, ok := kf.Known(prop, key); ok {
-			rec.Excluded(key)
-			rec.Known(e.What)
+			c.recordKnown(rec, key, e.What)
 			return true
 		}
 		return false
